@@ -66,6 +66,10 @@ ALLOW_SINGLE_WRITE = {
 }
 
 
+MUTATING_METHODS = {"add", "update", "discard", "remove", "clear", "pop", "append", "extend", "insert", "sort", "reverse", "setdefault", "popitem",
+                    "intersection_update", "difference_update", "symmetric_difference_update"}
+
+
 def rules(ctx: Ctx) -> None:
     prog = ctx.prog
     R = common.runner(prog)
@@ -94,6 +98,34 @@ def rules(ctx: Ctx) -> None:
                 continue
             ctx.ob("R11.1", inst.key, False, where, f"order-sensitive use of unordered `{inst.source}`: {inst.detail}")
     ctx.floor("consumption sites of unordered collections", n_inst, 19)
+
+    # a sort makes an unordered collection deterministic only if its key tells every two elements apart: a key that looks at some
+    # components of the element only (x[0], x[-1]) leaves ties, and ties come out in set iteration order
+    from ..order import unordered_expr as _unordered
+
+    n_sorts = 0
+    for f in prog.funcs.values():
+        if f.mod.name in ("sqllineage.cli", "sqllineage.drawing"):
+            continue
+        for n in prog.walk_fn(f):
+            if not (isinstance(n, ast.Call) and isinstance(n.func, ast.Name) and n.func.id in ("sorted", "min", "max") and n.args):
+                continue
+            key = next((k.value for k in n.keywords if k.arg == "key"), None)
+            if key is None or not _unordered(prog, n.args[0], f):
+                continue
+            n_sorts += 1
+            if not isinstance(key, ast.Lambda) or len(key.args.args) != 1:
+                # a function given by name (key=str) receives the element as a whole
+                ctx.ob("R11.1", f"{f.owner}:sort-key-sees-the-whole-element", True, loc(f.mod, n), f"`key={u(key)[:40]}` is applied to the element as a whole", trivial=True)
+                continue
+            p_ = key.args.args[0].arg
+            uses = [x for x in ast.walk(key.body) if isinstance(x, ast.Name) and x.id == p_]
+            partial = bool(uses) and all(isinstance(prog.parent(x), ast.Subscript) and prog.parent(x).value is x and not isinstance(prog.parent(x).slice, ast.Slice)
+                                         and isinstance(prog.try_fold(prog.parent(x).slice, f.mod, f), int) for x in uses)
+            ctx.ob("R11.1", f"{f.owner}:sort-key-sees-the-whole-element", not partial, loc(f.mod, n),
+                   f"`{u(key)[:70]}`: " + ("the key is built from single components of the element only; elements that agree on them keep their set iteration order" if partial
+                                          else "the key is computed from the element as a whole"), trivial=not partial)
+    ctx.floor("sorts of unordered collections with a key function", n_sorts, 2)
 
     # public sequences are sorted: parent candidates (anchor named by the property)
     col = prog.try_cls("core.models.Column")
@@ -192,6 +224,21 @@ def rules(ctx: Ctx) -> None:
                 elif u(n.func.value) in ("nx",) and n.args and is_self_attr(n.args[0]):
                     ctx.ob("R11.3", f"accessor-pure:{f.cls.name}.{f.name}:mutates:{u(n.args[0])}", False, loc(f.mod, n),
                            f"`{u(n)[:70]}` mutates the holder's graph from a result accessor")
+        # ... and through a local that is the stored object itself: `t = self._x; t |= more` / `t.add(..)` changes self._x in place
+        for n in prog.walk_fn(f):
+            tgt = None
+            if isinstance(n, ast.AugAssign) and isinstance(n.target, ast.Name):
+                tgt = n.target
+            elif isinstance(n, ast.Call) and isinstance(n.func, ast.Attribute) and n.func.attr in MUTATING_METHODS and isinstance(n.func.value, ast.Name):
+                tgt = n.func.value
+            if tgt is None or tgt.id == "self":
+                continue
+            stored = [v for v in prog.value_sources(f, tgt) if isinstance(v, ast.Attribute) and isinstance(v.value, ast.Name) and v.value.id == "self"
+                      and prog.find_method(f.cls, v.attr) is None]
+            if stored:
+                ctx.ob("R11.3", f"accessor-pure:{f.cls.name}.{f.name}:mutates-through-alias:{stored[0].attr}", False, loc(f.mod, n),
+                       f"`{u(n)[:70]}`: `{tgt.id}` is the object stored in `self.{stored[0].attr}` itself, not a copy - the accessor changes it in place and the next accessor "
+                       f"(or the same one called again) starts from the changed value")
         # functools caches on methods
         if any("cache" in d for d in f.decorators):
             ctx.ob("R11.3", f"accessor-pure:{f.cls.name}.{f.name}:cached", False, f.loc(), f"{f.name} is memoised by a decorator: later calls with other arguments or after state changes see stale results")
